@@ -128,8 +128,11 @@ def eval_case(case, res: core.ShardResult | None = None, sweep_bits: int = 8) ->
                 phys = refcodec.i2p(leaf["dop"], i)
             except (refcodec.RefReject, refcodec.RefUnsupported):
                 continue   # internal value outside the compu method's domain
-            if refcodec.p2i(leaf["dop"], phys) != i:
-                continue   # not the canonical internal value of its physical value (text table ranges)
+            try:
+                if refcodec.p2i(leaf["dop"], phys) != i:
+                    continue   # not the canonical internal value of its physical value (text table ranges)
+            except (refcodec.RefReject, refcodec.RefUnsupported):
+                continue       # e.g. the default text of a text table has no inverse
             vals = dict(case["values"])
             vals[leaf["name"]] = phys
             try:
